@@ -2,6 +2,7 @@
 Correspondence: bytes written for (name, args) by implementation and model.
 Oracle: the Coq port of MPD's tokenizer applied to the IMPLEMENTATION's bytes."""
 import itertools
+import mpdgen as g
 from vlib import Failure, compare, finish, hexs, unhexs
 
 COQ_FILES = ["Bytes.v", "Tables.v", "CommandModel.v", "MpdTokenizer.v", "CommandProofs.v", "EscapeProofs.v"]
@@ -43,6 +44,14 @@ def gen(ctx):
     ]
     for n, a in corpus:
         add(n, a)
+    # characters that a sloppy conversion mistreats (low byte equal to a quote/backslash/blank, case-folding to ASCII, Unicode
+    # numerics and letters): alone (sent unquoted), next to a blank (sent quoted), next to each special, and in command names
+    for ch in g.TRICKY_CHARS:
+        for arg in (ch, ch + ch, "a" + ch, ch + "a", "x " + ch, ch + " y", ch + "\t", "(" + ch + ")"):
+            add("find", ["title", arg])
+        for nm in ("x" + ch, "track" + ch, ch + "x", "find" + ch + "y"):
+            cases.append("cmd_build " + hexs(nm))
+            meta.append((nm, []))
     n_random = 600 if ctx.tier == "quick" else 6000
     for _ in range(n_random):
         name = rng.choice(NAMES[:6]) if rng.random() < 0.95 else rng.choice(NAMES)
@@ -73,7 +82,7 @@ def run(ctx, only=None):
         meta = []
         for c in cases:
             t = c.split(" ")
-            meta.append((unhexs(t[1]).decode(), [unhexs(x.split(":", 1)[1]).decode() for x in t[2:]]))
+            meta.append((unhexs(t[1]).decode(), [unhexs(x.split(":", 1)[1]).decode() for x in t[2:]] if t[0] == "cmd_args" else []))
     impl = ctx.run_impl(cases)
     disagreements = []
     if ctx.model_ok:
